@@ -39,7 +39,7 @@ def check(rep, tier, seed):
             toks.append("T:%s:%d:%d:%.9g" % (kind, pre, preread, tgt))
         hs = 1 if r.chance(1, 4) else 0
         texts.append("case %d %d %d %s\nops %s\n" % (k, k, hs, fi["data"].hex(), " ".join(toks)))
-        metas.append({"case": k, "Ns": fi["Ns"], "kinds": fi["kinds"], "halfrate": hs, "tests": " ".join(toks)[:300]})
+        metas.append({"case": k, "Ns": fi["Ns"], "kinds": fi["kinds"], "halfrate": hs, "goffs": fi.get("goffs", []), "tests": " ".join(toks)[:300]})
     # corpus of earlier failures (case line + ops line per file), appended with fresh case numbers
     cdir = os.path.join(common.VERIF, "corpus", "C19")
     for fn in sorted(os.listdir(cdir)) if os.path.isdir(cdir) else []:
@@ -48,7 +48,8 @@ def check(rep, tier, seed):
         if len(t) == 5 and t[0] == "case" and ls[1].startswith("ops "):
             k = len(texts)
             texts.append("case %d %d %s %s\n%s\n" % (k, k, t[3], t[4], ls[1]))
-            metas.append({"case": k, "Ns": [], "kinds": ["corpus:" + fn], "halfrate": int(t[3]), "tests": ls[1][4:304]})
+            metas.append({"case": k, "Ns": [], "kinds": ["corpus:" + fn], "halfrate": int(t[3]), "tests": ls[1][4:304],
+                          "goffs": [-7] if "odd_trim" in fn else []})
     shards = 16
 
     def one(i):
@@ -68,7 +69,13 @@ def check(rep, tier, seed):
         for k, li in ic.items():
             m = metas[int(k)]
             for l in li:
-                if l.startswith("prop ") and "FAIL" in l:
+                if l.startswith("prop lapland FAIL") and m.get("halfrate") == 1 and any(g % 2 for g in m.get("goffs", [])) \
+                        and abs(int(l.split()[3]) - int(l.split()[4])) == 1:
+                    # KNOWN_FINDINGS.txt halfrate-odd-trim-lapland: half rate on a file with a link whose beginning is trimmed by
+                    # an odd count; the two reported positions differ by exactly one
+                    dist["known_halfrate-odd-trim-lapland"] = dist.get("known_halfrate-odd-trim-lapland", 0) + 1
+                    known.setdefault("halfrate-odd-trim-lapland", {"line": l, "case": k, "meta": m, "cases_file": cfile})
+                elif l.startswith("prop ") and "FAIL" in l:
                     bad_prop.append({"kind": l, "case": k, "meta": m, "cases_file": cfile})
                 if l.startswith("known "):
                     dist["known_" + l.split()[1]] = dist.get("known_" + l.split()[1], 0) + 1
